@@ -466,6 +466,11 @@ type ResetOptions struct {
 	// HardReset and KeepReset properly diff from the actual previous state
 	// rather than the new HEAD.
 	fromTree *object.Tree
+
+	// refusalsChecked is set by callers that already ran
+	// Worktree.resetRefusals for these options, before changing anything
+	// themselves.
+	refusalsChecked bool
 }
 
 // Validate validates the fields and sets the default values.
